@@ -30,6 +30,11 @@ def future_heavy(r):
         lines.append("#program {}. {}{}{}{} :- t{}.".format(r.choice(["always", "dynamic", "initial"]), sign, p, depth, args, (", " + dom) if dom else ""))
         if r.random() < 0.4:
             lines.append("#program always. :- {}{}{}, not t{}.".format(p, "'" * r.randint(1, 3), args, (", " + dom) if dom else ""))
+    # one predicate (same arity, same sign) at several future depths: entries of `future_predicates` that differ in the depth only
+    for p in r.sample(preds, r.randint(1, len(preds))):
+        sign = r.choice(["", "", "-"])
+        for d in r.sample([1, 2, 3], r.randint(2, 3)):
+            lines.append("#program {}. {}{}{} :- t.".format(r.choice(["always", "dynamic"]), sign, p + "x", "'" * d))
     if r.random() < 0.6:
         lines.append("#program initial. &tel { > g(X) | >? h(X) } :- v(X).")
         lines.append("#program always. &tel { (X > k(X)) & m } :- v(X), t.")
